@@ -434,6 +434,22 @@ def drv_requires(s):
                                                                                fw_spec(psi_flat(s, p), psi_flat(s, q)) == KK(p) - KK(q))))]
 
 
+def _frame_snapshot(s):
+    """Write counters / content functions of the array arguments at entry (frame clauses: the caller's tensors are read only)."""
+    return NS(**{k: (getattr(s, k).writes, getattr(s, k).fn) for k in ("phi", "mask", "reliability")
+                 if isinstance(getattr(s, k, None), V.SymArr)})
+
+
+def _frame_clauses(s):
+    out = []
+    for k, lab in (("phi", "phase"), ("mask", "mask"), ("reliability", "reliability")):
+        a = getattr(s, k, None)
+        if isinstance(a, V.SymArr) and hasattr(s.old, k):
+            w, fn = getattr(s.old, k)
+            out.append((f"frame:the-caller's-{lab}-tensor-is-not-written", a.writes == w and a.fn is fn))
+    return out
+
+
 def be_result(ctx, s):
     E = ctx.fresh("n_edges", "int")
     ctx.assume(E.t >= 0)
@@ -584,11 +600,25 @@ def be_requires(s):
             ("wrap_around-is-the-driver's", same_wrap)]
 
 
-C_BUILD = Contract(f"{IU}:_build_edges", setup=be_setup, requires=be_requires, ensures=be_ensures, result=be_result,
+C_BUILD = Contract(f"{IU}:_build_edges", setup=be_setup, requires=be_requires, ensures=lambda s: be_ensures(s) + _frame_clauses(s), result=be_result,
+                   snapshot=_frame_snapshot,
                    inline=[], note="edge SET completeness (every neighbour pair is present) is covered by the bounded oracle only")
-C_REL = Contract(f"{IU}:_pixel_reliability", setup=None,
+
+
+def rel_setup(ctx):
+    s = drv_setup(ctx)
+    return NS(phi=s.phi, mask=s.mask, H=s.H, W=s.W)
+
+
+def rel_ensures(s):
+    r = s.result
+    ok_shape = isinstance(r, V.SymArr) and len(r.shape) == 2 and AND(lift(r.shape[0]) == lift(s.phi.shape[0]), lift(r.shape[1]) == lift(s.phi.shape[1]))
+    return _frame_clauses(s) + [("one-reliability-value-per-pixel", ok_shape)]
+
+
+C_REL = Contract(f"{IU}:_pixel_reliability", setup=rel_setup, ensures=rel_ensures, snapshot=_frame_snapshot,
                  result=lambda ctx, s: ctx.fresh_arr("reliability", s.phi.shape, "real"),
-                 note="only orders the edges; the result does not depend on it")
+                 note="only orders the edges (the unwrapping result does not depend on its values); verified: reads its arguments only")
 
 
 def drv_loop_inv(s):
@@ -642,7 +672,8 @@ def drv_ensures(s):
 
 
 C_DRIVER = Contract(
-    f"{IU}:_unwrap_phase_2d_torch_reliability_sorting", setup=drv_setup, requires=drv_requires, ensures=drv_ensures,
+    f"{IU}:_unwrap_phase_2d_torch_reliability_sorting", setup=drv_setup, requires=drv_requires, ensures=lambda s: drv_ensures(s) + _frame_clauses(s),
+    snapshot=_frame_snapshot,
     loops={0: LoopSpec(inv=drv_loop_inv, havoc={"uf": drv_havoc})},
 )
 
@@ -723,8 +754,8 @@ def bf_ensures(s):
 C_BFOVERLAP = Contract(f"{DPU}:unwrap_bf_overlap_phase_torch", setup=bf_setup, ensures=bf_ensures,
                        overrides={f"{IU}:unwrap_phase_2d_torch": C_UNWRAP_CALLEE})
 
-CONTRACTS = [C_INIT, C_FIND, C_UNION, C_FINAL, C_FINDWRAP, C_WRAP, C_BUILD, C_DRIVER, C_UNWRAP_ANY, C_BFOVERLAP]
-ASSUMED_CONTRACTS = [C_REL]
+CONTRACTS = [C_INIT, C_FIND, C_UNION, C_FINAL, C_FINDWRAP, C_WRAP, C_REL, C_BUILD, C_DRIVER, C_UNWRAP_ANY, C_BFOVERLAP]
+ASSUMED_CONTRACTS = []
 
 # ------------------------------------------------------------------------------------------------
 # lemmas
@@ -820,6 +851,10 @@ def _field(kind, H, W, seed, periodic):
 
     rng = np.random.default_rng(seed)
     y, x = np.meshgrid(np.arange(H), np.arange(W), indexing="ij")
+    if kind == "periodic-big":  # several wraps along the longer axis, smooth across the periodic seam
+        n = max(H, W)
+        t = (y if H >= W else x).astype(float)
+        return 9.0 * np.cos(2 * np.pi * (t - rng.integers(0, n)) / n) + (0.6 * np.sin(2 * np.pi * (x if H >= W else y) / max(1, min(H, W))) if min(H, W) > 2 else 0.0)
     if periodic:
         a, b = rng.integers(0, 3), rng.integers(0, 3)
         f = 2.4 * np.sin(2 * np.pi * (a * y / H + b * x / W) + rng.uniform(0, 6)) + 1.7 * np.cos(2 * np.pi * y / H) * (H > 2)
@@ -880,6 +915,13 @@ def _mask(kind, H, W, seed):
         m = (yy / max(1.0, H / 3.0)) ** 2 + (xx / max(1.0, W / 3.0)) ** 2 <= 1.0
     elif kind == "stripe":       # one masked-out column: the two sides touch only across the periodic seam
         m[:, W // 2] = False
+    elif kind == "gap":          # a few masked-out lines across the LONGER axis (works for 1 x N and N x 1 grids)
+        n = max(H, W)
+        a = int(rng.integers(2, max(3, n - 4)))
+        if H >= W:
+            m[a:a + 3, :] = False
+        else:
+            m[:, a:a + 3] = False
     return m
 
 
@@ -918,7 +960,11 @@ def rt_unwrap(inp):
     problems = []
     for label, src in (("wrapped", (phi + np.pi) % (2 * np.pi) - np.pi), ("already-unwrapped", phi)):
         t = torch.tensor(src, dtype=torch.float32)
-        out = unwrap_phase_2d_torch(t, method="reliability-sorting", mask=None if m is None else torch.tensor(m), wrap_around=periodic).numpy().astype(np.float64)
+        mt = None if m is None else torch.tensor(m)
+        t0, m0 = t.clone(), (None if mt is None else mt.clone())
+        out = unwrap_phase_2d_torch(t, method="reliability-sorting", mask=mt, wrap_around=periodic).numpy().astype(np.float64)
+        if not torch.equal(t, t0) or (mt is not None and not torch.equal(mt, m0)):
+            problems.append(f"{label}: the caller's input tensor was modified by the call ({int((t != t0).sum())} pixels differ)")
         mm = np.ones((H, W), bool) if m is None else m
         lab, nc = _components(mm, periodic)
         for c in range(nc):
@@ -942,6 +988,11 @@ def fam_unwrap(tier="quick", seed=0):
                 yield dict(H=H, W=W, field=field, mask=mask, wrap_around=False, seed=seed + H * 31 + W)
         for mask in ("none", "hole", "corner-disk", "stripe"):
             yield dict(H=H, W=W, field="periodic", mask=mask, wrap_around=True, seed=seed + H * 7 + W)
+    # grids with a length-1 axis and long periodic profiles (several wraps, valid arc connected only across the seam)
+    for (H, W) in [(1, 24), (24, 1), (1, 48), (3, 30)] + ([(48, 1), (2, 40)] if tier == "thorough" else []):
+        for mask in ("none", "gap"):
+            for k in range(3):
+                yield dict(H=H, W=W, field="periodic-big", mask=mask, wrap_around=True, seed=seed + 100 * k + H * 7 + W)
 
 
 def rt_edges(inp):
@@ -1078,7 +1129,7 @@ def fam_bf_overlap(tier="quick", seed=0):
 
 for _c in (C_INIT, C_FIND, C_UNION, C_FINAL):
     _c.rt, _c.rt_family = rt_unionfind, fam_unionfind
-for _c in (C_FINDWRAP, C_WRAP, C_DRIVER, C_UNWRAP_ANY):
+for _c in (C_FINDWRAP, C_WRAP, C_REL, C_DRIVER, C_UNWRAP_ANY):
     _c.rt, _c.rt_family = rt_unwrap, fam_unwrap
 C_BFOVERLAP.rt, C_BFOVERLAP.rt_family = rt_bf_overlap, fam_bf_overlap
 C_BUILD.rt, C_BUILD.rt_family = rt_edges, fam_edges
